@@ -23,6 +23,9 @@ class WFQ(Scheduler):
         """The calculated finish time of each packet
         """
         self.active_set: Set[FlowId] = set()
+        self.class_count: Dict[ClassId, int] = dict()
+        """Packets of each class that are waiting or in transmission
+        """
         """The flow_id set of all non-empty subqueue
         """
         self.vtime: SimTime = 0.0
@@ -58,7 +61,8 @@ class WFQ(Scheduler):
             yield env.process(self.send_packet(packet))
             self.update_vtime()
             class_id = self.flow2class(packet.flow_id)
-            if self.queue_count[class_id] == 0:
+            self.class_count[class_id] -= 1
+            if self.class_count[class_id] == 0:
                 self.active_set.remove(class_id)
             if len(self.active_set) == 0:
                 self.reset_vtime()
@@ -76,6 +80,7 @@ class WFQ(Scheduler):
         ) + packet.size * 8.0 / (self.rate * self.weights[class_id])
 
         self.add_packet_to_queue(packet)
+        self.class_count[class_id] = self.class_count.get(class_id, 0) + 1
         self.active_set.add(class_id)
         self.last_time = now
 
